@@ -405,11 +405,13 @@ func traceSite() string {
 	for {
 		f, more := fr.Next()
 		if !strings.Contains(f.File, "/mc/sched/") {
-			file := f.File
-			if i := strings.LastIndexByte(file, '/'); i >= 0 {
-				file = file[i+1:]
+			// function name, not file:line: instrumented copies have shifted line numbers, and classes of
+			// findings are built from these sites
+			fn := f.Function
+			if i := strings.LastIndexByte(fn, '/'); i >= 0 {
+				fn = fn[i+1:]
 			}
-			return fmt.Sprintf("%s:%d", file, f.Line)
+			return fn
 		}
 		if !more {
 			return "?"
